@@ -42,7 +42,7 @@ CLEAN_STMTS = [
     "match null {{ _ => {{ }} }}; match [i] {{ _ => 1 }}; match i * 1.5 {{ _ => 2 }};",
     "let mm = match byte(i % 2) {{ b'a' => {{ if {C} {{ {K}; }} 1 }}, _ => 2 }};",
     # logical operators nested inside operands of other logical operators, with operands pending around them
-    "let on = i % 2 == 0; let odd = i % 3 == 0; let v1 = on && 10 + (odd && 7); let v2 = [1, on && (odd && 2), 3]; f(on && 1 + (odd || 0 && 5));",
+    "let on = i % 2 == 0; let odd = i % 3 == 0; let v1 = on && 10 + (odd && 7 || 0); let v2 = [1, on && (odd && 2), 3]; f(on && 1 + (odd && 2 || 0 && 5));",
     "let p = i % 2; let q = i % 5; let r1 = (p && q) || (q && (p || 3 + (q && p))); let r2 = !(p && 1 + (q || 2) * (p && 4)); a[(p || 0) && (q && 1)];",
     "let on = i % 2 == 0; let t3 = on && f(1 + (on && 2)) && [on && 1, (on || 2) && 3][1] && map {{1: on && (i && 2)}};",
     # a loop written inside a block that is itself an operand, left through break / continue of that inner loop only
@@ -51,6 +51,8 @@ CLEAN_STMTS = [
     "let x3 = f(1 + if {C} {{ let n = 0; while n < 4 {{ n = n + 1; if n == 2 {{ break; }} }} n }} else {{ 5 }}) + 1;",
     "map {{i % 7: 1, i % 5: 2, 1: 3, 1.0: 4}}; map {{1: 1, 1: 2, 1: 3}}; [map {{\"k\": i, \"k\": i}}, 1];",
     # layer expressions (null without a current packet) and calls of functions that end without a value
+    "$0; $1; $0;",
+    "let k = 2; $k; ($1); $k;",
     "$0; $1; let k = 2; $k; ($1); [$0, $1, $k]; f($2); if $3 {{ 1 }}; $0 == null && $1 == null;",
     "nop(); endlet(i); endwhile(i); endblock(i); endif(i); 1 + len([nop()]); [nop(), endlet(1), endwhile(2)]; f(endblock(3));",
     "if {C} {{ nop(); {K}; }} endlet($1); let w = [endwhile(i), $0];",
@@ -197,8 +199,11 @@ def run(chk):
         if i % 401 == 0:
             chk.sample({"program": src, "steps": r.get("steps"), "max_sp": r.get("max_sp"), "program_points_revisited": h.get("revisited")})
         bad = judge(r)
+        if not bad and r.get("outcome") == "rt_error":
+            # none of the shape programs can fail on an interpreter that keeps its operands apart
+            bad = ("fails", "runtime error: %s" % r["rt"]["msg"])
         if bad:
-            if dirty:
+            if dirty and bad[0] != "fails":
                 sig = "unbalanced|break-or-continue-in-operand-position"
             else:
                 sig = "unbalanced|%s|%s|body%d|%s" % (bad[0], tag[0], tag[2], tag[3].split()[0])
